@@ -21,24 +21,25 @@ def Post (I : WState → Prop) (E : Err → Prop) : Res WState → Prop
   | .ok w => I w
   | .error e => E e
 
-/-- the calls the walk makes into the placement core (`N` = what holds of `get_content` nodes) -/
-inductive WalkEvent (S : Schema) (N : Node → Bool) : Event → Prop
-  | text (s : List Nat) : WalkEvent S N (.insertNode (.text s []))
-  | leaf (t : TypeId) (a : Attrs) : (S.nodeType t).isLeaf = true → WalkEvent S N (.insertNode (.leaf t a []))
-  | given (n : Node) : N n = true → WalkEvent S N (.insertNode n)
-  | enter (t : TypeId) (a : Option Attrs) (pw : WS) : WalkEvent S N (.enter t a pw)
-  | findPlace (s : List Nat) : WalkEvent S N (.findPlace (.text s []))
-  | addPending (m : TMark) : WalkEvent S N (.addPending m)
-  | removePending (m : TMark) (u : Option Nat) : WalkEvent S N (.removePending m u)
-  | sync (u : Option Nat) : WalkEvent S N (.sync u)
-  | setOpen (v : Nat) : WalkEvent S N (.setOpen v)
-  | setNeedsBlock (b : Bool) : WalkEvent S N (.setNeedsBlock b)
+/-- the calls the walk makes into the placement core (`N` = what holds of `get_content` nodes, `T` = of the node
+    types the tag rules name, `o` = `self.open` at the moment of the call: `open` is only ever lowered) -/
+inductive WalkEvent (S : Schema) (N : Node → Bool) (T : TypeId → Prop) (o : Nat) : Event → Prop
+  | text (s : List Nat) : WalkEvent S N T o (.insertNode (.text s []))
+  | leaf (t : TypeId) (a : Attrs) : (S.nodeType t).isLeaf = true → WalkEvent S N T o (.insertNode (.leaf t a []))
+  | given (n : Node) : N n = true → WalkEvent S N T o (.insertNode n)
+  | enter (t : TypeId) (a : Option Attrs) (pw : WS) : T t → WalkEvent S N T o (.enter t a pw)
+  | findPlace (s : List Nat) : WalkEvent S N T o (.findPlace (.text s []))
+  | addPending (m : TMark) : WalkEvent S N T o (.addPending m)
+  | removePending (m : TMark) (u : Option Nat) : WalkEvent S N T o (.removePending m u)
+  | sync (u : Option Nat) : WalkEvent S N T o (.sync u)
+  | setOpen (v : Nat) : v ≤ o → WalkEvent S N T o (.setOpen v)
+  | setNeedsBlock (b : Bool) : WalkEvent S N T o (.setNeedsBlock b)
 
 /-- what `walk_post` needs of `I`, `E`: every admissible call into the core keeps `I` or fails acceptably;
     `I` does not look at the mark-identity counter; a ValueError is acceptable; an internal error is
     acceptable or excluded (`strict`: the input guards hold, and `I` gives `self.top`) -/
-structure Frame (P : Parser) (N : Node → Bool) (I : WState → Prop) (E : Err → Prop) (strict : Bool) : Prop where
-  emit : ∀ w e, I w → WalkEvent P.S N e → match emit P w e with
+structure Frame (P : Parser) (N : Node → Bool) (T : TypeId → Prop) (I : WState → Prop) (E : Err → Prop) (strict : Bool) : Prop where
+  emit : ∀ w e, I w → WalkEvent P.S N T w.st.open_ e → match emit P w e with
     | .ok (w', _) => I w'
     | .error err => E err
   nextMark : ∀ w n, I w → I { w with nextMark := n }
@@ -46,10 +47,11 @@ structure Frame (P : Parser) (N : Node → Bool) (I : WState → Prop) (E : Err 
   top : ∀ w, I w → w.top = none → E .internal
   lax : strict = false → E .internal
   rules : strict = true → P.rulesOk = true
+  types : ∀ r ∈ P.tags, ∀ t, r.node = some (some t) → T t
 
-variable {P : Parser} {N : Node → Bool} {I : WState → Prop} {E : Err → Prop} {strict : Bool}
+variable {P : Parser} {N : Node → Bool} {T : TypeId → Prop} {I : WState → Prop} {E : Err → Prop} {strict : Bool}
 
-theorem emit'_post (F : Frame P N I E strict) (w : WState) (e : Event) (hi : I w) (he : WalkEvent P.S N e) :
+theorem emit'_post (F : Frame P N T I E strict) (w : WState) (e : Event) (hi : I w) (he : WalkEvent P.S N T w.st.open_ e) :
     Post I E (emit' P w e) := by
   have := F.emit w e hi he
   unfold emit'
@@ -57,8 +59,8 @@ theorem emit'_post (F : Frame P N I E strict) (w : WState) (e : Event) (hi : I w
   | error err => simpa [h, Post] using this
   | ok r => obtain ⟨w', b⟩ := r; simpa [h, Post] using this
 
-theorem emitEach_post (F : Frame P N I E strict) {α : Type} (mk : WState → α → Event)
-    (hmk : ∀ w a, WalkEvent P.S N (mk w a)) : ∀ (l : List α) (w : WState), I w → Post I E (emitEach P mk l w)
+theorem emitEach_post (F : Frame P N T I E strict) {α : Type} (mk : WState → α → Event)
+    (hmk : ∀ w a, WalkEvent P.S N T w.st.open_ (mk w a)) : ∀ (l : List α) (w : WState), I w → Post I E (emitEach P mk l w)
   | [], w, hi => by simpa [emitEach, Post] using hi
   | a :: as, w, hi => by
     have h1 := emit'_post F w (mk w a) hi (hmk w a)
@@ -69,7 +71,7 @@ theorem emitEach_post (F : Frame P N I E strict) {α : Type} (mk : WState → α
       rw [h] at h1
       exact emitEach_post F mk hmk as w' h1
 
-theorem insertAll_post (F : Frame P N I E strict) : ∀ (l : List Node) (w : WState), I w → l.all N = true →
+theorem insertAll_post (F : Frame P N T I E strict) : ∀ (l : List Node) (w : WState), I w → l.all N = true →
     Post I E (insertAll P l w)
   | [], w, hi, _ => by simpa [insertAll, Post] using hi
   | n :: ns, w, hi, hl => by
@@ -82,7 +84,7 @@ theorem insertAll_post (F : Frame P N I E strict) : ∀ (l : List Node) (w : WSt
       rw [h] at h1
       exact insertAll_post F ns w' h1 hl.2
 
-theorem addTextNode_post (F : Frame P N I E strict) (w : WState) (t : Option (List Nat)) (pt : Option String) (pb : Bool)
+theorem addTextNode_post (F : Frame P N T I E strict) (w : WState) (t : Option (List Nat)) (pt : Option String) (pb : Bool)
     (hi : I w) (ht : strict = true → t.isSome = true) : Post I E (addTextNode P w t pt pb) := by
   unfold addTextNode
   cases htop : w.top with
@@ -101,7 +103,7 @@ theorem addTextNode_post (F : Frame P N I E strict) (w : WState) (t : Option (Li
         · exact emit'_post F w _ hi (.text _)
       · exact hi
 
-theorem leafFallback_post (F : Frame P N I E strict) (w : WState) (tag : String) (hi : I w) :
+theorem leafFallback_post (F : Frame P N T I E strict) (w : WState) (tag : String) (hi : I w) :
     Post I E (leafFallback P w tag) := by
   unfold leafFallback
   cases htop : w.top with
@@ -113,7 +115,7 @@ theorem leafFallback_post (F : Frame P N I E strict) (w : WState) (tag : String)
       | exact hi
       | exact addTextNode_post F w (some brText) none false hi (fun _ => rfl)
 
-theorem ignoreFallback_post (F : Frame P N I E strict) (w : WState) (tag : String) (hi : I w) :
+theorem ignoreFallback_post (F : Frame P N T I E strict) (w : WState) (tag : String) (hi : I w) :
     Post I E (ignoreFallback P w tag) := by
   unfold ignoreFallback
   cases htop : w.top with
@@ -165,7 +167,7 @@ def styleRuleOk (r : StyleRule) : Bool :=
 /-- an error of the walk's own making: a ValueError, or an internal error that the guards exclude -/
 def OwnErr (strict : Bool) (e : Err) : Prop := e = .valueError ∨ (e = .internal ∧ strict = false)
 
-theorem Frame.own (F : Frame P N I E strict) {e : Err} (h : OwnErr strict e) : E e := by
+theorem Frame.own (F : Frame P N T I E strict) {e : Err} (h : OwnErr strict e) : E e := by
   rcases h with rfl | ⟨rfl, hs⟩
   · exact F.valueError
   · exact F.lax hs
@@ -270,7 +272,7 @@ def PostPre (I : WState → Prop) (E : Err → Prop) : Res (Option (WState × St
   | .ok (some (w, _)) => I w
   | .error e => E e
 
-theorem stylePre_post (F : Frame P N I E strict) (w : WState) (styles : List StyleDecl) (hi : I w)
+theorem stylePre_post (F : Frame P N T I E strict) (w : WState) (styles : List StyleDecl) (hi : I w)
     (hd : strict = true → styles.all (fun d => d.getAttrs.all (fun x => !x.2.isRaises)) = true) :
     PostPre I E (stylePre P w styles) := by
   unfold stylePre
@@ -297,7 +299,7 @@ theorem stylePre_post (F : Frame P N I E strict) (w : WState) (styles : List Sty
           | error e => rw [he2] at h2; exact h2
           | ok w2 => rw [he2] at h2; exact h2
 
-theorem stylePost_post (F : Frame P N I E strict) (w : WState) (sc : StyleCtx) (hi : I w) : Post I E (stylePost P w sc) := by
+theorem stylePost_post (F : Frame P N T I E strict) (w : WState) (sc : StyleCtx) (hi : I w) : Post I E (stylePost P w sc) := by
   unfold stylePost
   have h1 := emitEach_post F (fun w m => Event.removePending m (w.idxOf sc.top)) (fun _ _ => .removePending _ _) sc.add w hi
   cases he1 : emitEach P (fun w m => Event.removePending m (w.idxOf sc.top)) sc.add w with
@@ -322,7 +324,7 @@ theorem bind_post {α : Type} (r : Res WState) (Q : Res α → Prop) (k : WState
   | error e => exact herr e hr
   | ok w => exact hk w hr
 
-theorem stepOut_post (F : Frame P N I E strict) (w0 : WState) (top : NodeCtx) (hi0 : I w0) :
+theorem stepOut_post (F : Frame P N T I E strict) (w0 : WState) (top : NodeCtx) (hi0 : I w0) :
     match stepOut P w0 top with
     | .ok (w1, _) => I w1
     | .error e => E e := by
@@ -331,7 +333,7 @@ theorem stepOut_post (F : Frame P N I E strict) (w0 : WState) (top : NodeCtx) (h
   cases c
   · exact hi0
   · simp only [if_true]
-    have := emit'_post F w0 (.setOpen (w0.st.open_ - 1)) hi0 (.setOpen _)
+    have := emit'_post F w0 (.setOpen (w0.st.open_ - 1)) hi0 (.setOpen _ (Nat.sub_le _ _))
     cases he : emit' P w0 (.setOpen (w0.st.open_ - 1)) with
     | error e => rw [he] at this; exact this
     | ok w1 =>
@@ -341,12 +343,12 @@ theorem stepOut_post (F : Frame P N I E strict) (w0 : WState) (top : NodeCtx) (h
       | none => exact F.top w1 this ht1
       | some top1 => exact this
 
-theorem blockOpen_post (F : Frame P N I E strict) (w : WState) (tag : String) (noKids cp : Bool) (hi : I w) :
+theorem blockOpen_post (F : Frame P N T I E strict) (w : WState) (tag : String) (noKids cp : Bool) (hi : I w) :
     PostBlock I E (blockOpen P w tag noKids cp) := by
   unfold blockOpen
   have h0 : Post I E (if cp then emit' P w (.setOpen (w.st.open_ - 1)) else .ok w) := by
     split
-    · exact emit'_post F w _ hi (.setOpen _)
+    · exact emit'_post F w _ hi (.setOpen _ (Nat.sub_le _ _))
     · exact hi
   dsimp only
   refine bind_post (I := I) (E := E) _ (PostBlock I E) _ h0 (fun e he => he) (fun w0 hi0 => ?_)
@@ -375,7 +377,7 @@ theorem blockOpen_post (F : Frame P N I E strict) (w : WState) (tag : String) (n
         | ok w1 => rw [hl] at this; exact this
       · exact hi0
 
-theorem blockClose_post (F : Frame P N I E strict) (w : WState) (bc : BlockCtx) (hi : I w) : Post I E (blockClose P w bc) := by
+theorem blockClose_post (F : Frame P N T I E strict) (w : WState) (bc : BlockCtx) (hi : I w) : Post I E (blockClose P w bc) := by
   unfold blockClose
   have h0 : Post I E (if bc.sync then emit' P w (.sync (w.idxOf bc.top)) else .ok w) := by
     split
@@ -386,8 +388,8 @@ theorem blockClose_post (F : Frame P N I E strict) (w : WState) (bc : BlockCtx) 
 
 def tagRuleOk (r : TagRule) : Bool := r.node != some none && r.mark != some none
 
-theorem ruleFirst_post (F : Frame P N I E strict) (w : WState) (tag : String) (r : TagRule) (attrs : Option Attrs)
-    (hi : I w) (hr : strict = true → tagRuleOk r = true) :
+theorem ruleFirst_post (F : Frame P N T I E strict) (w : WState) (tag : String) (r : TagRule) (attrs : Option Attrs)
+    (hi : I w) (hr : strict = true → tagRuleOk r = true) (hT : ∀ t, r.node = some (some t) → T t) :
     match ruleFirst P w tag r attrs with
     | .ok (w1, _) => I w1
     | .error e => E e := by
@@ -432,7 +434,7 @@ theorem ruleFirst_post (F : Frame P N I E strict) (w : WState) (tag : String) (r
                 | error e => rw [hlf] at hl; exact hl
                 | ok w2 => rw [hlf] at hl; exact hl
       · simp only [hleaf, Bool.not_false, if_true]
-        have := F.emit w (.enter t attrs r.preserveWs) hi (.enter _ _ _)
+        have := F.emit w (.enter t attrs r.preserveWs) hi (.enter _ _ _ (hT t hn))
         cases he : emit P w (.enter t attrs r.preserveWs) with
         | error e => rw [he] at this; exact this
         | ok p => obtain ⟨w1, res⟩ := p; rw [he] at this; exact this
@@ -455,12 +457,12 @@ theorem ruleFirst_post (F : Frame P N I E strict) (w : WState) (tag : String) (r
           | error e => rw [he] at this; exact this
           | ok w1 => rw [he] at this; exact this
 
-theorem ruleOpen_post (F : Frame P N I E strict) (w : WState) (tag : String) (r : TagRule) (attrs : Option Attrs)
-    (hi : I w) (hr : strict = true → tagRuleOk r = true) :
+theorem ruleOpen_post (F : Frame P N T I E strict) (w : WState) (tag : String) (r : TagRule) (attrs : Option Attrs)
+    (hi : I w) (hr : strict = true → tagRuleOk r = true) (hT : ∀ t, r.node = some (some t) → T t) :
     match ruleOpen P w tag r attrs with
     | .ok (w1, _) => I w1
     | .error e => E e := by
-  have h1 := ruleFirst_post F w tag r attrs hi hr
+  have h1 := ruleFirst_post F w tag r attrs hi hr hT
   unfold ruleOpen
   cases hf : ruleFirst P w tag r attrs with
   | error e => rw [hf] at h1; exact h1
@@ -472,7 +474,7 @@ theorem ruleOpen_post (F : Frame P N I E strict) (w : WState) (tag : String) (r 
     | none => exact F.top w1 h1 ht
     | some top => exact h1
 
-theorem ruleClose_post (F : Frame P N I E strict) (w : WState) (rc : RuleCtx) (hi : I w) : Post I E (ruleClose P w rc) := by
+theorem ruleClose_post (F : Frame P N T I E strict) (w : WState) (rc : RuleCtx) (hi : I w) : Post I E (ruleClose P w rc) := by
   unfold ruleClose
   have h0 : Post I E (if rc.sync then
       match emit P w (.sync (w.idxOf rc.startIn)) with
@@ -488,7 +490,7 @@ theorem ruleClose_post (F : Frame P N I E strict) (w : WState) (rc : RuleCtx) (h
         rw [he] at this
         dsimp only at this ⊢
         split
-        · exact emit'_post F w1 _ this (.setOpen _)
+        · exact emit'_post F w1 _ this (.setOpen _ (Nat.sub_le _ _))
         · exact this
     · exact hi
   dsimp only
@@ -661,14 +663,14 @@ theorem candsOk_noRaise (hs : strict = true) : ∀ (cands : List (CandInfo × Li
 
 theorem tagRuleOk_of_rules (hr : P.rulesOk = true) (i : Nat) (r : TagRule) (h : P.tags[i]? = some r) : tagRuleOk r = true := by
   simp only [Parser.rulesOk, Bool.and_eq_true, List.all_eq_true] at hr
-  simpa [tagRuleOk] using hr.1 r (List.mem_of_getElem? h)
+  simpa [tagRuleOk] using hr.1.2 r (List.mem_of_getElem? h)
 
 /-! ### the walk keeps the invariant -/
 
 /-- **one induction over the whole walk**: under a `Frame` (every single admissible call into the placement
     core keeps `I` or fails acceptably), `add_all` / `add_dom` / `add_element` keep `I` or fail acceptably, on
     every DOM that satisfies the guards `listOk strict N` -/
-theorem walk_post (F : Frame P N I E strict) :
+theorem walk_post (F : Frame P N T I E strict) :
     (∀ (ptag : String) (kids : List DNode) (prevBr : Bool) (w : WState),
       I w → listOk strict N kids = true → Post I E (addAll P ptag kids prevBr w)) ∧
     (∀ (ptag : String) (prevBr : Bool) (k : DNode) (w : WState),
@@ -767,6 +769,7 @@ theorem walk_post (F : Frame P N I E strict) :
     subst hom
     have hmt := matchTag_some P _ _ _ _ hm
     have := ruleOpen_post F w tag m.rule m.attrs hi (fun hs => tagRuleOk_of_rules (F.rules hs) _ _ hmt.2.2.2)
+      (F.types _ (List.mem_of_getElem? hmt.2.2.2))
     rw [hro] at this
     rw [addElement_eq]; simp only [hm, hd, hro]; exact this
   -- a rule: the content fails / succeeds
@@ -775,6 +778,7 @@ theorem walk_post (F : Frame P N I E strict) :
     subst hom
     have hmt := matchTag_some P _ _ _ _ hm
     have h1 := ruleOpen_post F w tag m.rule m.attrs hi (fun hs => tagRuleOk_of_rules (F.rules hs) _ _ hmt.2.2.2)
+      (F.types _ (List.mem_of_getElem? hmt.2.2.2))
     rw [hro] at h1
     have hpair := candsOk_mem cands _ hc hmt.2.2.1
     simp only [pairOk, Bool.and_eq_true] at hpair
@@ -799,6 +803,7 @@ theorem walk_post (F : Frame P N I E strict) :
     subst hom
     have hmt := matchTag_some P _ _ _ _ hm
     have h1 := ruleOpen_post F w tag m.rule m.attrs hi (fun hs => tagRuleOk_of_rules (F.rules hs) _ _ hmt.2.2.2)
+      (F.types _ (List.mem_of_getElem? hmt.2.2.2))
     rw [hro] at h1
     have hpair := candsOk_mem cands _ hc hmt.2.2.1
     simp only [pairOk, Bool.and_eq_true] at hpair
@@ -839,10 +844,10 @@ theorem run_snoc (S : Schema) (wsPre : TypeId → Bool) : ∀ (l : List Event) (
 /-- the walk state is what the placement core reaches from `st0` on the logged calls, and every logged
     call is one the walk may make -/
 def Replays (P : Parser) (N : Node → Bool) (st0 : PState) (w : WState) : Prop :=
-  PState.run P.S P.wsPre st0 w.log = .ok w.st ∧ ∀ e ∈ w.log, WalkEvent P.S N e
+  PState.run P.S P.wsPre st0 w.log = .ok w.st ∧ ∀ e ∈ w.log, ∃ o, WalkEvent P.S N (fun _ => True) o e
 
 theorem replays_frame (P : Parser) (N : Node → Bool) (st0 : PState) :
-    Frame P N (Replays P N st0) (fun _ => True) false where
+    Frame P N (fun _ => True) (Replays P N st0) (fun _ => True) false where
   emit := by
     intro w e ⟨h1, h2⟩ he
     unfold emit
@@ -854,12 +859,13 @@ theorem replays_frame (P : Parser) (N : Node → Bool) (st0 : PState) :
       intro x hx
       rcases List.mem_append.1 hx with hx | hx
       · exact h2 x hx
-      · simp only [List.mem_singleton] at hx; subst hx; exact he
+      · simp only [List.mem_singleton] at hx; subst hx; exact ⟨_, he⟩
   nextMark := fun _ _ h => h
   valueError := trivial
   top := fun _ _ _ => trivial
   lax := fun _ => trivial
   rules := fun h => by cases h
+  types := fun _ _ _ _ => trivial
 
 /-- **the walk is a run of the placement core**: whatever DOM and oracle, if `add_all` returns, its final
     state is the state the placement core reaches on the logged sequence of calls -/
